@@ -121,7 +121,7 @@ pub struct Model {
     /// since then something printed text, cleared, suspended or dropped a handle: the recorded finding
     /// F-C02a applies and screens are only compared modulo blank rows
     pub bottom_loose: bool,
-    /// a draw under bottom alignment shrank the frame to nothing (finding F-C02d applies from then on)
+    /// a draw under bottom alignment shrank the frame to nothing (label; the case of the repaired F-C02d)
     pub bottom_emptied: bool,
     pub max_frame_h: usize,
     pub next_tag: usize,
@@ -328,8 +328,10 @@ pub struct Interp {
     pub stale_reap_seen: bool,
     /// a suspend closure wrote an empty first line while no bar row was on screen (C01 finding F-C01b)
     pub empty_suspend_line_seen: bool,
-    /// a draw under bottom alignment painted an empty frame over a non-empty region (F-C02d)
+    /// a draw under bottom alignment painted an empty frame over a non-empty region (the case of the repaired F-C02d)
     pub bottom_empty_frame_seen: bool,
+    /// the target has a refresh rate: draw attempts may be refused
+    pub limited: bool,
 }
 
 /// What happened in one op, for the property-specific checks.
@@ -384,7 +386,7 @@ impl Interp {
             None => ProgressDrawTarget::term_like(vt.boxed()),
         };
         let mp = MultiProgress::with_draw_target(target);
-        Interp { vt, mp: Some(mp), handles: vec![], model: Model::default(), cols, rows, cut_to_height: false, stale_since_remove: false, stale_reap_seen: false, empty_suspend_line_seen: false, bottom_empty_frame_seen: false }
+        Interp { vt, mp: Some(mp), handles: vec![], model: Model::default(), cols, rows, cut_to_height: false, stale_since_remove: false, stale_reap_seen: false, empty_suspend_line_seen: false, bottom_empty_frame_seen: false, limited: c.hz.is_some() }
     }
 
     fn entry_mut(&mut self, tag: usize) -> Option<&mut Entry> {
@@ -644,7 +646,8 @@ impl Interp {
                 out.phase_frames.push((vec![], self.model.log.len()));
             }
             MOp::MpSuspend(lines) | MOp::BarSuspend(_, lines) => {
-                if lines.first().map_or(false, |l| console::measure_text_width(l) == 0) && self.model.frame().iter().all(|l| l.is_empty()) && !self.model.log.is_empty() {
+                // (rate-limited target: which bar rows are really on screen is not tracked - any such suspend counts)
+                if lines.first().map_or(false, |l| console::measure_text_width(l) == 0) && (self.limited || self.model.frame().iter().all(|l| l.is_empty())) && !self.model.log.is_empty() {
                     self.empty_suspend_line_seen = true;
                 }
                 let vt = self.vt.clone();
@@ -706,6 +709,12 @@ impl Interp {
                 paint = false;
             }
         }
+        out.frames = self.vt.take_frames();
+        // on a rate-limited target an ordinary draw attempt that the limiter refuses returns before
+        // MultiState::draw reaps anything or paints
+        if self.limited && out.frames.is_empty() && !text_paint {
+            paint = false;
+        }
         if paint {
             if text_paint {
                 self.model.blocks_optional();
@@ -721,7 +730,6 @@ impl Interp {
             // a reap while bottom alignment is (or was) on: F-C02a (a) applies from here on
             self.model.bottom_loose = true;
         }
-        out.frames = self.vt.take_frames();
         if std::env::var_os("VERIF_TRACE").is_some() {
             eprintln!("TRACE {op:?}: calls {:?}", self.vt.take_calls());
             for f in &out.frames {
@@ -763,7 +771,7 @@ impl Interp {
                 b.after_log = b.after_log.min(log_len);
             }
             m.match_screen(&fr.rows, &frame, self.cols).map_err(|e| {
-                let kind = if m.bottom_ever && (m.bottom_loose || m.bottom_emptied) { "screen_bottom" } else { "screen" };
+                let kind = if m.bottom_ever && m.bottom_loose { "screen_bottom" } else { "screen" };
                 Fail::new(kind, format!("{ctx}, draw {} of {}: {e}", k + 1, out.frames.len()))
             })?;
         }
